@@ -8,8 +8,10 @@ Helper lemmas for C14 (maximum-entropy distributions with prescribed marginals,
 * the disintegration lemma `Σ_o f(o) h(o_g) = Σ_x P_f(g = x) h(x)`;
 * the Pythagorean identity `H(q) − H(p) = D(p‖q)` for a log-linear `q` and a `p` with the same
   marginals;
-* sums over Cartesian products (product of one-variable marginals);
-* marginals of sub-groups.
+* sums over Cartesian products (product of one-variable marginals, `prodMarg`);
+* `Feasible` tables, marginals of sub-groups, a group covering all variables, the uniform table;
+* fixed points and invariants of the IPF iteration; the optimality certificate
+  `entropy_le_of_loglinear`; a concrete 2×2 instance for the non-vacuity examples.
 Property theorems are in Props/C14.lean.
 -/
 import DitModel.Core.Maxent
@@ -305,5 +307,1025 @@ theorem eq_of_lookupD_eq {p q : Tab κ ℝ} {space : List κ} (hp : keys p = spa
   exact List.map_congr_left (fun o ho => by rw [h o ho])
 
 end Graph
+
+/-! ### Disintegration -/
+
+section Disint
+open Dit.Lemmas.Diverge
+
+/-- **Disintegration with a test function.** `Σ_rows v · h(f key) = Σ_x P(f = x) · h(x)`, the
+outer sum over any duplicate-free list containing the images of all stored keys. -/
+theorem sum_rows_fibre {κ κ' : Type} [DecidableEq κ'] {l : List κ'} (hl : l.Nodup) (f : κ → κ')
+    (h : κ' → ℝ) (t : Tab κ ℝ) (hf : ∀ k ∈ keys t, f k ∈ l) :
+    (t.map (fun r => r.2 * h (f r.1))).sum
+      = (l.map (fun x => wtBy (fun k => f k = x) t * h x)).sum := by
+  induction t with
+  | nil => simp
+  | cons r t ih =>
+    have ih' := ih (fun k hk => hf k (List.mem_cons_of_mem _ hk))
+    have hr : f r.1 ∈ l := hf r.1 (by simp)
+    have e : (fun x => wtBy (fun k => f k = x) (r :: t) * h x)
+        = fun x => (if f r.1 = x then r.2 * h x else 0) + wtBy (fun k => f k = x) t * h x := by
+      funext x
+      rw [wtBy_cons]
+      by_cases hx : f r.1 = x <;> simp [hx, add_mul]
+    rw [e, List.sum_map_add, ← ih', sum_map_ite_eq_of_nodup hl hr (fun x => r.2 * h x),
+      List.map_cons, List.sum_cons]
+
+variable {σ : Type} [DecidableEq σ]
+
+/-- Disintegration along a variable group. -/
+theorem sum_rows_margAt (t : Tab (List σ) ℝ) (g : List Nat) (h : List σ → ℝ)
+    {l : List (List σ)} (hl : l.Nodup) (hf : ∀ o ∈ keys t, project g o ∈ l) :
+    (t.map (fun r => r.2 * h (project g r.1))).sum
+      = (l.map (fun x => margAt t g x * h x)).sum := by
+  rw [sum_rows_fibre hl (project g) h t hf]
+  congr 1
+  exact List.map_congr_left (fun x _ => by rw [margAt_eq_wtBy])
+
+/-- The expectation of a function of `o_g` only depends on the `g`-marginal. -/
+theorem sum_rows_eq_of_margAt_eq (p q : Tab (List σ) ℝ) (g : List Nat) (h : List σ → ℝ)
+    (hm : ∀ x, margAt p g x = margAt q g x) :
+    (p.map (fun r => r.2 * h (project g r.1))).sum
+      = (q.map (fun r => r.2 * h (project g r.1))).sum := by
+  have hl := nodup_dedup ((keys p ++ keys q).map (project g))
+  rw [sum_rows_margAt p g h hl, sum_rows_margAt q g h hl]
+  · congr 1
+    exact List.map_congr_left (fun x _ => by rw [hm x])
+  · intro o ho; rw [mem_dedup]; exact List.mem_map.mpr ⟨o, List.mem_append_right _ ho, rfl⟩
+  · intro o ho; rw [mem_dedup]; exact List.mem_map.mpr ⟨o, List.mem_append_left _ ho, rfl⟩
+
+/-- The expectation of a log-linear function `c + Σ_g ψ_g(o_g)` is the same under two tables
+of equal mass with equal marginals on every group. -/
+theorem sum_loglinear_eq (p q : Tab (List σ) ℝ) (groups : List (List Nat)) (c : ℝ)
+    (ψ : List Nat → List σ → ℝ) (hmass : mass p = mass q)
+    (hm : ∀ g ∈ groups, ∀ x, margAt p g x = margAt q g x) :
+    (p.map (fun r => r.2 * (c + (groups.map (fun g => ψ g (project g r.1))).sum))).sum
+      = (q.map (fun r => r.2 * (c + (groups.map (fun g => ψ g (project g r.1))).sum))).sum := by
+  have expand : ∀ T : Tab (List σ) ℝ,
+      (T.map (fun r => r.2 * (c + (groups.map (fun g => ψ g (project g r.1))).sum))).sum
+        = mass T * c
+          + (groups.map (fun g => (T.map (fun r => r.2 * ψ g (project g r.1))).sum)).sum := by
+    intro T
+    rw [← sum_comm, mass_eq_sum, vals, ← sum_map_mul_right, ← sum_map_add]
+    congr 1
+    apply List.map_congr_left
+    intro r _
+    rw [sum_map_mul_left]; ring
+  rw [expand p, expand q, hmass]
+  congr 2
+  apply List.map_congr_left
+  intro g hg
+  exact sum_rows_eq_of_margAt_eq p q g (ψ g) (hm g hg)
+
+end Disint
+
+/-! ### The Pythagorean identity -/
+
+section Pyth
+open Dit.Lemmas.Diverge Dit.Lemmas.InfoReal
+variable {σ : Type} [DecidableEq σ]
+
+/-- Label alignment of two tables, the first on a duplicate-free space. -/
+theorem alignPair_eq {κ : Type} [DecidableEq κ] (p q : Tab κ ℝ) {space : List κ}
+    (hp : keys p = space) (hnd : space.Nodup) :
+    alignPair p q = space.map (fun o => (lookupD 0 p o, lookupD 0 q o)) := by
+  unfold alignPair
+  conv_lhs => rw [eq_graph hp hnd]
+  rw [List.map_map]
+  rfl
+
+theorem alignPair_fst {κ : Type} [DecidableEq κ] (p q : Tab κ ℝ) :
+    (alignPair p q).map Prod.fst = vals p := by
+  simp [alignPair, vals, Function.comp_def]
+
+theorem alignPair_snd {κ : Type} [DecidableEq κ] (p q : Tab κ ℝ) {space : List κ}
+    (hp : keys p = space) (hq : keys q = space) (hnd : space.Nodup) :
+    (alignPair p q).map Prod.snd = vals q := by
+  rw [alignPair_eq p q hp hnd, vals_eq_map hq hnd, List.map_map]
+  rfl
+
+theorem absCont_alignPair {κ : Type} [DecidableEq κ] (p q : Tab κ ℝ) {space : List κ}
+    (hp : keys p = space) (hnd : space.Nodup)
+    (hsupp : ∀ o ∈ space, lookupD 0 q o = 0 → lookupD 0 p o = 0) :
+    absCont (alignPair p q) = true := by
+  rw [absCont_iff, alignPair_eq p q hp hnd]
+  intro r hr h2
+  obtain ⟨o, ho, rfl⟩ := List.mem_map.mp hr
+  exact hsupp o ho h2
+
+/-- Entropy of a log-linear table: `H(q) = −E_q[c + Σ_g ψ_g]`. -/
+theorem entropy_loglinear (q : Tab (List σ) ℝ) {space : List (List σ)} (hq : keys q = space)
+    (hnd : space.Nodup) (groups : List (List Nat)) (c : ℝ) (ψ : List Nat → List σ → ℝ)
+    (hlog : ∀ o ∈ space, lookupD 0 q o ≠ 0 →
+      Real.logb 2 (lookupD 0 q o) = c + (groups.map (fun g => ψ g (project g o))).sum) :
+    entropyVals (Real.logb 2) (vals q)
+      = -(q.map (fun r => r.2 * (c + (groups.map (fun g => ψ g (project g r.1))).sum))).sum := by
+  rw [entropyVals_eq_sum, vals, List.map_map]
+  congr 2
+  apply List.map_congr_left
+  intro r hr
+  simp only [Function.comp_apply]
+  by_cases h0 : r.2 = 0
+  · simp [h0]
+  · have hl : lookupD 0 q r.1 = r.2 := lookupD_of_mem (hq ▸ hnd) hr
+    have hmem : r.1 ∈ space := hq ▸ mem_keys_of_mem hr
+    rw [← hlog r.1 hmem (by rw [hl]; exact h0), hl]
+
+/-- Cross entropy against a log-linear table: `−Σ p log q = −E_p[c + Σ_g ψ_g]`, when the support
+of `p` is inside that of `q`. -/
+theorem xent_loglinear (p q : Tab (List σ) ℝ) {space : List (List σ)} (hp : keys p = space)
+    (hnd : space.Nodup) (groups : List (List Nat)) (c : ℝ) (ψ : List Nat → List σ → ℝ)
+    (hlog : ∀ o ∈ space, lookupD 0 q o ≠ 0 →
+      Real.logb 2 (lookupD 0 q o) = c + (groups.map (fun g => ψ g (project g o))).sum)
+    (hsupp : ∀ o ∈ space, lookupD 0 q o = 0 → lookupD 0 p o = 0) :
+    xentSum (alignPair p q)
+      = -(p.map (fun r => r.2 * (c + (groups.map (fun g => ψ g (project g r.1))).sum))).sum := by
+  unfold xentSum alignPair
+  rw [List.map_map]
+  congr 2
+  apply List.map_congr_left
+  intro r hr
+  simp only [Function.comp_apply]
+  by_cases h0 : r.2 = 0
+  · simp [h0]
+  · have hl : lookupD 0 p r.1 = r.2 := lookupD_of_mem (hp ▸ hnd) hr
+    have hmem : r.1 ∈ space := hp ▸ mem_keys_of_mem hr
+    have hq0 : lookupD 0 q r.1 ≠ 0 := fun e => h0 (by rw [← hl]; exact hsupp r.1 hmem e)
+    rw [hlog r.1 hmem hq0]
+
+/-- **Pythagorean identity.** If `q` is log-linear on its support over `groups`, `p` has the same
+mass and the same marginals on every group, and `supp p ⊆ supp q`, then
+`D(p‖q) = H(q) − H(p)`. -/
+theorem klSum_eq_entropy_sub (p q : Tab (List σ) ℝ) {space : List (List σ)}
+    (hp : keys p = space) (hq : keys q = space) (hnd : space.Nodup)
+    (groups : List (List Nat)) (c : ℝ) (ψ : List Nat → List σ → ℝ)
+    (hmass : mass p = mass q)
+    (hm : ∀ g ∈ groups, ∀ x, margAt p g x = margAt q g x)
+    (hlog : ∀ o ∈ space, lookupD 0 q o ≠ 0 →
+      Real.logb 2 (lookupD 0 q o) = c + (groups.map (fun g => ψ g (project g o))).sum)
+    (hsupp : ∀ o ∈ space, lookupD 0 q o = 0 → lookupD 0 p o = 0) :
+    klSum (alignPair p q)
+      = entropyVals (Real.logb 2) (vals q) - entropyVals (Real.logb 2) (vals p) := by
+  have hac := absCont_alignPair p q hp hnd hsupp
+  have h1 := xentSum_eq (alignPair p q) hac
+  rw [alignPair_fst, xent_loglinear p q hp hnd groups c ψ hlog hsupp,
+    sum_loglinear_eq p q groups c ψ hmass hm,
+    ← entropy_loglinear q hq hnd groups c ψ hlog] at h1
+  linarith
+
+end Pyth
+
+/-! ### Sums of product weights over a Cartesian product -/
+
+section Cart
+open Dit.Lemmas.Diverge
+variable {σ : Type} [DecidableEq σ]
+
+/-- Product weight of an outcome: `Π_j F j (o_j)`. -/
+def pw (F : Nat → σ → ℝ) : List σ → ℝ
+  | [] => 1
+  | a :: o => F 0 a * pw (fun j => F (j + 1)) o
+
+/-- `Π_j Σ_{a ∈ as_j} F j a`. -/
+def cprod (F : Nat → σ → ℝ) : List (List σ) → ℝ
+  | [] => 1
+  | a :: rest => (a.map (F 0)).sum * cprod (fun j => F (j + 1)) rest
+
+theorem sum_flatMap_map {β γ : Type} (l : List β) (f : β → List γ) (h : γ → ℝ) :
+    ((l.flatMap f).map h).sum = (l.map (fun x => ((f x).map h).sum)).sum := by
+  induction l with
+  | nil => simp
+  | cons x l ih => simp [List.flatMap_cons, ih]
+
+/-- **Sum of a product = product of sums** over a Cartesian product. -/
+theorem sum_cartesian_pw (F : Nat → σ → ℝ) (as : List (List σ)) :
+    ((cartesian as).map (pw F)).sum = cprod F as := by
+  induction as generalizing F with
+  | nil => simp [cartesian, pw, cprod]
+  | cons a rest ih =>
+    unfold cartesian cprod
+    rw [sum_flatMap_map, ← sum_map_mul_right]
+    congr 1
+    apply List.map_congr_left
+    intro x _
+    rw [List.map_map, ← ih, ← sum_map_mul_left]
+    rfl
+
+/-- Restrict factor `i` to the symbol `x0`. -/
+def restrict (F : Nat → σ → ℝ) (i : Nat) (x0 : σ) : Nat → σ → ℝ :=
+  fun j a => if j = i then (if a = x0 then F j a else 0) else F j a
+
+theorem restrict_zero_succ (F : Nat → σ → ℝ) (x0 : σ) :
+    (fun j => restrict F 0 x0 (j + 1)) = fun j => F (j + 1) := by
+  funext j a; simp [restrict]
+
+theorem restrict_succ_succ (F : Nat → σ → ℝ) (i : Nat) (x0 : σ) :
+    (fun j => restrict F (i + 1) x0 (j + 1)) = restrict (fun j => F (j + 1)) i x0 := by
+  funext j a; simp [restrict]
+
+theorem pw_restrict (F : Nat → σ → ℝ) (i : Nat) (x0 : σ) (o : List σ) (hi : i < o.length) :
+    pw (restrict F i x0) o = if o[i]? = some x0 then pw F o else 0 := by
+  induction o generalizing F i with
+  | nil => simp at hi
+  | cons a o ih =>
+    cases i with
+    | zero =>
+      simp only [pw, restrict_zero_succ, List.getElem?_cons_zero, Option.some.injEq]
+      by_cases h : a = x0 <;> simp [restrict, h]
+    | succ i =>
+      simp only [pw, restrict_succ_succ, List.getElem?_cons_succ]
+      rw [ih _ i (by simpa using hi)]
+      by_cases h : o[i]? = some x0 <;> simp [restrict, h]
+
+theorem cprod_eq_one (F : Nat → σ → ℝ) (as : List (List σ))
+    (h : ∀ j, j < as.length → ((as.getD j []).map (F j)).sum = 1) : cprod F as = 1 := by
+  induction as generalizing F with
+  | nil => rfl
+  | cons a rest ih =>
+    unfold cprod
+    have h0 := h 0 (by simp)
+    simp only [List.getD_cons_zero] at h0
+    rw [h0, one_mul]
+    apply ih
+    intro j hj
+    have := h (j + 1) (by simpa using hj)
+    simpa using this
+
+theorem sum_map_ite_eq (l : List σ) (hl : l.Nodup) (x0 : σ) (f : σ → ℝ) :
+    (l.map (fun a => if a = x0 then f a else 0)).sum = if x0 ∈ l then f x0 else 0 := by
+  by_cases hx : x0 ∈ l
+  · rw [if_pos hx, ← sum_map_ite_eq_of_nodup hl hx f]
+    congr 1
+    apply List.map_congr_left
+    intro a _
+    by_cases h : a = x0
+    · subst h; simp
+    · have h' : ¬ x0 = a := fun e => h e.symm
+      simp [h, h']
+  · rw [if_neg hx]
+    apply List.sum_eq_zero
+    intro z hz
+    obtain ⟨a, ha, rfl⟩ := List.mem_map.mp hz
+    have : a ≠ x0 := fun e => hx (e ▸ ha)
+    simp [this]
+
+theorem cprod_restrict (F : Nat → σ → ℝ) (i : Nat) (x0 : σ) (as : List (List σ))
+    (hi : i < as.length) (hnd : (as.getD i []).Nodup)
+    (h : ∀ j, j < as.length → j ≠ i → ((as.getD j []).map (F j)).sum = 1) :
+    cprod (restrict F i x0) as = if x0 ∈ as.getD i [] then F i x0 else 0 := by
+  induction as generalizing F i with
+  | nil => simp at hi
+  | cons a rest ih =>
+    cases i with
+    | zero =>
+      unfold cprod
+      rw [restrict_zero_succ, cprod_eq_one]
+      · simp only [List.getD_cons_zero] at hnd ⊢
+        rw [mul_one, ← sum_map_ite_eq a hnd x0 (F 0)]
+        congr 1
+      · intro j hj
+        have := h (j + 1) (by simpa using hj) (by omega)
+        simpa using this
+    | succ i =>
+      unfold cprod
+      rw [restrict_succ_succ]
+      have h0 := h 0 (by simp) (by omega)
+      simp only [List.getD_cons_zero] at h0
+      have e : (a.map (restrict F (i + 1) x0 0)) = a.map (F 0) := by
+        apply List.map_congr_left; intro y _; simp [restrict]
+      rw [e, h0, one_mul]
+      have := ih (fun j => F (j + 1)) i (by simpa using hi) (by simpa using hnd)
+        (by
+          intro j hj hne
+          have := h (j + 1) (by simpa using hj) (by omega)
+          simpa using this)
+      simpa using this
+
+end Cart
+
+/-! ### Product of marginals; singleton constraints -/
+
+section Singletons
+open Dit.Lemmas.Diverge
+variable {σ : Type} [DecidableEq σ]
+
+/-- The singleton groups `[[0], …, [n-1]]`. -/
+def singletons (n : Nat) : List (List Nat) := (List.range n).map (fun i => [i])
+
+/-- Product of the marginals of `t` on the given groups, as a table on `space`:
+`o ↦ Π_g P_t(o_g)`. -/
+noncomputable def prodMarg (t : Tab (List σ) ℝ) (groups : List (List Nat))
+    (space : List (List σ)) : Tab (List σ) ℝ :=
+  space.map (fun o => (o, (groups.map (fun g => margAt t g (project g o))).prod))
+
+theorem keys_prodMarg (t : Tab (List σ) ℝ) (groups : List (List Nat)) (space : List (List σ)) :
+    keys (prodMarg t groups space) = space := keys_map_graph _ _
+
+theorem lookupD_prodMarg (t : Tab (List σ) ℝ) (groups : List (List Nat)) (space : List (List σ))
+    (o : List σ) (ho : o ∈ space) :
+    lookupD 0 (prodMarg t groups space) o = (groups.map (fun g => margAt t g (project g o))).prod := by
+  unfold lookupD prodMarg
+  rw [lookup?_map_graph]; simp [ho]
+
+theorem prodMarg_nonneg (t : Tab (List σ) ℝ) (ht : ∀ r ∈ t, 0 ≤ r.2) (groups : List (List Nat))
+    (space : List (List σ)) : ∀ r ∈ prodMarg t groups space, 0 ≤ r.2 := by
+  intro r hr
+  obtain ⟨o, _, rfl⟩ := List.mem_map.mp hr
+  simp only
+  generalize groups = gs
+  induction gs with
+  | nil => simp
+  | cons g gs ih =>
+    rw [List.map_cons, List.prod_cons]
+    exact mul_nonneg (margAt_nonneg t ht g _) ih
+
+theorem project_single (i : Nat) (o : List σ) : project [i] o = (o[i]?).toList := by
+  unfold project
+  rw [List.filterMap_cons]
+  cases o[i]? <;> rfl
+
+theorem prod_range_eq_pw (G : Nat → List σ → ℝ) (o : List σ) :
+    ((List.range o.length).map (fun i => G i (project [i] o))).prod
+      = pw (fun i a => G i [a]) o := by
+  induction o generalizing G with
+  | nil => simp [pw]
+  | cons a o ih =>
+    rw [List.length_cons, List.range_succ_eq_map, List.map_cons, List.prod_cons, List.map_map]
+    unfold pw
+    rw [← ih (fun i => G (i + 1))]
+    rfl
+
+theorem map_singletons {β : Type} (n : Nat) (H : List Nat → β) :
+    (singletons n).map H = (List.range n).map (fun i => H [i]) := by
+  simp [singletons, Function.comp_def]
+
+/-- Membership in a Cartesian product, component form with `getD`. -/
+theorem getElem?_mem_of_mem_cartesian {as : List (List σ)} {o : List σ} (ho : o ∈ cartesian as)
+    (j : Nat) (hj : j < as.length) : ∃ a, o[j]? = some a ∧ a ∈ as.getD j [] := by
+  obtain ⟨hlen, h⟩ := mem_cartesian_iff_getElem.mp ho
+  have hj' : j < o.length := hlen ▸ hj
+  refine ⟨o[j], List.getElem?_eq_getElem hj', ?_⟩
+  have := h j hj' hj
+  simpa [List.getD_eq_getElem?_getD, List.getElem?_eq_getElem hj] using this
+
+/-- The one-variable marginal of a table on a Cartesian space sums to the total mass over the
+alphabet. -/
+theorem sum_margAt_single (t : Tab (List σ) ℝ) (as : List (List σ)) (hnd : ∀ a ∈ as, a.Nodup)
+    (hk : keys t = cartesian as) (j : Nat) (hj : j < as.length) :
+    ((as.getD j []).map (fun a => margAt t [j] [a])).sum = mass t := by
+  have hmem : as.getD j [] ∈ as := by
+    rw [List.getD_eq_getElem?_getD, List.getElem?_eq_getElem hj]; exact List.getElem_mem hj
+  have hl : ((as.getD j []).map (fun a => [a])).Nodup :=
+    (hnd _ hmem).map (fun a b e => by injection e)
+  have := sum_margAt t [j] hl (by
+    intro o ho
+    rw [hk] at ho
+    obtain ⟨a, ha, hma⟩ := getElem?_mem_of_mem_cartesian ho j hj
+    rw [project_single, ha]
+    exact List.mem_map.mpr ⟨a, hma, rfl⟩)
+  rw [← this, List.map_map]
+  rfl
+
+end Singletons
+
+section Singletons2
+open Dit.Lemmas.Diverge
+variable {σ : Type} [DecidableEq σ]
+
+/-- On the Cartesian space the product of the one-variable marginals is a product weight. -/
+theorem prodMarg_singletons_eq (t : Tab (List σ) ℝ) (as : List (List σ)) :
+    prodMarg t (singletons as.length) (cartesian as)
+      = (cartesian as).map (fun o => (o, pw (fun i a => margAt t [i] [a]) o)) := by
+  unfold prodMarg
+  apply List.map_congr_left
+  intro o ho
+  rw [map_singletons, ← length_of_mem_cartesian ho,
+    prod_range_eq_pw (fun i x => margAt t [i] x) o]
+
+theorem mass_prodMarg_singletons (t : Tab (List σ) ℝ) (as : List (List σ))
+    (hnd : ∀ a ∈ as, a.Nodup) (hk : keys t = cartesian as) (hmass : mass t = 1) :
+    mass (prodMarg t (singletons as.length) (cartesian as)) = 1 := by
+  rw [prodMarg_singletons_eq, mass_eq_sum, vals, List.map_map]
+  have : ((fun r : List σ × ℝ => r.2) ∘ fun o => (o, pw (fun i a => margAt t [i] [a]) o))
+      = pw (fun i a => margAt t [i] [a]) := rfl
+  rw [this, sum_cartesian_pw]
+  apply cprod_eq_one
+  intro j hj
+  rw [sum_margAt_single t as hnd hk j hj, hmass]
+
+/-- **The product of the one-variable marginals has those marginals.** -/
+theorem margAt_prodMarg_singletons (t : Tab (List σ) ℝ) (as : List (List σ))
+    (hnd : ∀ a ∈ as, a.Nodup) (hk : keys t = cartesian as) (hmass : mass t = 1)
+    (i : Nat) (hi : i < as.length) (x : List σ) :
+    margAt (prodMarg t (singletons as.length) (cartesian as)) [i] x = margAt t [i] x := by
+  by_cases hx : ∃ x0, x = [x0]
+  · obtain ⟨x0, rfl⟩ := hx
+    rw [prodMarg_singletons_eq, margAt_eq_wtBy, wtBy_map_graph]
+    have e : ∀ o ∈ cartesian as,
+        (if project [i] o = [x0] then pw (fun i a => margAt t [i] [a]) o else 0)
+          = pw (restrict (fun i a => margAt t [i] [a]) i x0) o := by
+      intro o ho
+      have hlen := length_of_mem_cartesian ho
+      rw [pw_restrict _ i x0 o (hlen ▸ hi), project_single]
+      cases h : o[i]? with
+      | none => simp
+      | some a => simp
+    rw [List.map_congr_left e, sum_cartesian_pw, cprod_restrict _ i x0 as hi]
+    · by_cases hm : x0 ∈ as.getD i []
+      · rw [if_pos hm]
+      · rw [if_neg hm]
+        symm
+        apply margAt_eq_zero_of_not_image
+        intro o ho
+        rw [hk] at ho
+        obtain ⟨a, ha, hma⟩ := getElem?_mem_of_mem_cartesian ho i hi
+        rw [project_single, ha]
+        intro e'
+        simp only [Option.toList_some, List.cons.injEq, and_true] at e'
+        exact hm (e' ▸ hma)
+    · have hmem : as.getD i [] ∈ as := by
+        rw [List.getD_eq_getElem?_getD, List.getElem?_eq_getElem hi]; exact List.getElem_mem hi
+      exact hnd _ hmem
+    · intro j hj _
+      rw [sum_margAt_single t as hnd hk j hj, hmass]
+  · have hne : ∀ o ∈ cartesian as, project [i] o ≠ x := by
+      intro o ho e
+      obtain ⟨a, ha, _⟩ := getElem?_mem_of_mem_cartesian ho i hi
+      rw [project_single, ha] at e
+      exact hx ⟨a, e.symm⟩
+    rw [margAt_eq_zero_of_not_image _ _ _ (by rw [keys_prodMarg]; exact hne),
+      margAt_eq_zero_of_not_image _ _ _ (by rw [hk]; exact hne)]
+
+end Singletons2
+
+/-! ### From product form to log-linear form; supports -/
+
+section LogLinear
+open Dit.Lemmas.Diverge Dit.Lemmas.InfoReal
+variable {σ : Type} [DecidableEq σ]
+
+theorem prod_ne_zero_iff (l : List ℝ) : l.prod ≠ 0 ↔ ∀ x ∈ l, x ≠ 0 := by
+  induction l with
+  | nil => simp
+  | cons a l ih =>
+    simp only [List.prod_cons, mul_ne_zero_iff, ih, List.mem_cons, forall_eq_or_imp]
+
+theorem logb_prod (l : List ℝ) (h : ∀ x ∈ l, x ≠ 0) :
+    Real.logb 2 l.prod = (l.map (Real.logb 2)).sum := by
+  induction l with
+  | nil => simp
+  | cons a l ih =>
+    have hl : ∀ x ∈ l, x ≠ 0 := fun x hx => h x (List.mem_cons_of_mem _ hx)
+    rw [List.prod_cons, List.map_cons, List.sum_cons,
+      Real.logb_mul (h a (by simp)) ((prod_ne_zero_iff l).mpr hl), ih hl]
+
+/-- A stored outcome of a table on a duplicate-free space is stored with its lookup value. -/
+theorem mem_of_mem_space {κ : Type} [DecidableEq κ] {t : Tab κ ℝ} {space : List κ}
+    (hk : keys t = space) (hnd : space.Nodup) {o : κ} (ho : o ∈ space) :
+    (o, lookupD 0 t o) ∈ t := by
+  obtain ⟨v, hv⟩ := mem_keys.mp (hk ▸ ho)
+  have := lookupD_of_mem (hk ▸ hnd) hv
+  simp only at this
+  rw [this]; exact hv
+
+/-- **Product form gives log-linear form on the support**: with `ψ_g = log₂ φ_g` and constant
+`log₂ c`. -/
+theorem ProductForm.loglinear {groups : List (List Nat)} {q : Tab (List σ) ℝ}
+    (h : ProductForm groups q) {space : List (List σ)} (hq : keys q = space) (hnd : space.Nodup) :
+    ∃ (c : ℝ) (ψ : List Nat → List σ → ℝ), ∀ o ∈ space, lookupD 0 q o ≠ 0 →
+      Real.logb 2 (lookupD 0 q o) = c + ((dedup groups).map (fun g => ψ g (project g o))).sum := by
+  obtain ⟨c, φ, hφ⟩ := h
+  refine ⟨Real.logb 2 c, fun g x => Real.logb 2 (φ g x), ?_⟩
+  intro o ho hne
+  have hv := hφ _ (mem_of_mem_space hq hnd ho)
+  simp only at hv
+  rw [hv] at hne ⊢
+  have hc : c ≠ 0 := left_ne_zero_of_mul hne
+  have hp := right_ne_zero_of_mul hne
+  rw [Real.logb_mul hc hp, logb_prod _ ((prod_ne_zero_iff _).mp hp), List.map_map]
+  rfl
+
+/-- In a non-negative table an outcome whose projection has marginal zero has value zero. -/
+theorem lookupD_eq_zero_of_margAt_eq_zero (p : Tab (List σ) ℝ) (hp : ∀ r ∈ p, 0 ≤ r.2)
+    (g : List Nat) (o : List σ) (h : margAt p g (project g o) = 0) : lookupD 0 p o = 0 := by
+  unfold lookupD
+  cases hl : lookup? p o with
+  | none => rfl
+  | some v =>
+    have hm := mem_of_lookup?_eq_some hl
+    have h1 := le_margAt p hp g (o, v) hm
+    have h2 := hp (o, v) hm
+    simp only at h1 h2
+    simp only [Option.getD_some]
+    linarith
+
+/-- If the support of `q` is the whole *marginal support* (every outcome with `q(o) = 0` has a
+vanishing `q`-marginal on some group), then every non-negative table with the same marginals has
+its support inside that of `q`. -/
+theorem supp_subset_of_marginal_support (p q : Tab (List σ) ℝ) (hp : ∀ r ∈ p, 0 ≤ r.2)
+    (groups : List (List Nat)) (hm : ∀ g ∈ groups, ∀ x, margAt p g x = margAt q g x)
+    (space : List (List σ))
+    (hfull : ∀ o ∈ space, lookupD 0 q o = 0 → ∃ g ∈ groups, margAt q g (project g o) = 0) :
+    ∀ o ∈ space, lookupD 0 q o = 0 → lookupD 0 p o = 0 := by
+  intro o ho h0
+  obtain ⟨g, hg, hz⟩ := hfull o ho h0
+  exact lookupD_eq_zero_of_margAt_eq_zero p hp g o (by rw [hm g hg]; exact hz)
+
+/-- The product of marginals is log-linear with `ψ_g = log₂ P_t(g = ·)` and constant 0. -/
+theorem prodMarg_loglinear (t : Tab (List σ) ℝ) (groups : List (List Nat))
+    (space : List (List σ)) :
+    ∀ o ∈ space, lookupD 0 (prodMarg t groups space) o ≠ 0 →
+      Real.logb 2 (lookupD 0 (prodMarg t groups space) o)
+        = 0 + (groups.map (fun g => Real.logb 2 (margAt t g (project g o)))).sum := by
+  intro o ho hne
+  rw [lookupD_prodMarg t groups space o ho] at hne ⊢
+  rw [logb_prod _ ((prod_ne_zero_iff _).mp hne), List.map_map, zero_add]
+  rfl
+
+/-- The support of the product of marginals is the whole marginal support. -/
+theorem prodMarg_marginal_support (t : Tab (List σ) ℝ) (groups : List (List Nat))
+    (space : List (List σ)) :
+    ∀ o ∈ space, lookupD 0 (prodMarg t groups space) o = 0 →
+      ∃ g ∈ groups, margAt t g (project g o) = 0 := by
+  intro o ho h0
+  rw [lookupD_prodMarg t groups space o ho] at h0
+  by_contra hcon
+  have : ∀ x ∈ groups.map (fun g => margAt t g (project g o)), x ≠ 0 := by
+    intro x hx
+    obtain ⟨g, hg, rfl⟩ := List.mem_map.mp hx
+    exact fun e => hcon ⟨g, hg, e⟩
+  exact (prod_ne_zero_iff _).mpr this h0
+
+/-- Entropy of a table that is log-linear in the logarithms of the marginals of `t` and has the
+marginals of `t`: the sum of the marginal entropies. -/
+theorem entropy_eq_sum_entropyOf (t q : Tab (List σ) ℝ) {space : List (List σ)}
+    (hq : keys q = space) (hnd : space.Nodup) (groups : List (List Nat))
+    (hmass : mass q = mass t) (hm : ∀ g ∈ groups, ∀ x, margAt q g x = margAt t g x)
+    (hlog : ∀ o ∈ space, lookupD 0 q o ≠ 0 →
+      Real.logb 2 (lookupD 0 q o)
+        = 0 + (groups.map (fun g => Real.logb 2 (margAt t g (project g o)))).sum) :
+    entropyVals (Real.logb 2) (vals q)
+      = (groups.map (fun g => entropyOf (Real.logb 2) t g)).sum := by
+  have hrows : ∀ g ∈ groups, entropyOf (Real.logb 2) t g
+      = -(t.map (fun r => r.2 * Real.logb 2 (margAt t g (project g r.1)))).sum := by
+    intro g _
+    rw [entropyOf_rows]
+    congr 2
+    apply List.map_congr_left
+    intro r _
+    rw [fibreSum_eq_ite, margAt_eq_wtBy]; rfl
+  rw [entropy_loglinear q hq hnd groups 0 (fun g x => Real.logb 2 (margAt t g x)) hlog,
+    sum_loglinear_eq q t groups 0 (fun g x => Real.logb 2 (margAt t g x)) hmass hm,
+    List.map_congr_left hrows, sum_map_neg, sum_comm]
+  congr 2
+  apply List.map_congr_left
+  intro r _
+  rw [zero_add, sum_map_mul_left]
+
+end LogLinear
+
+/-! ### Feasible tables, sub-marginals, a group covering all variables, the uniform table -/
+
+section Feasible
+open Dit.Lemmas.Diverge Dit.Lemmas.InfoReal
+variable {σ : Type} [DecidableEq σ]
+
+/-- `p` is *feasible* for the constraints `(t, groups)` on `space`: a non-negative table on
+`space` with the total mass of `t` and the marginals of `t` on every group of `groups`. -/
+structure Feasible (t : Tab (List σ) ℝ) (space : List (List σ)) (groups : List (List Nat))
+    (p : Tab (List σ) ℝ) : Prop where
+  keys_eq : keys p = space
+  nonneg : ∀ r ∈ p, 0 ≤ r.2
+  mass_eq : mass p = mass t
+  marg : ∀ g ∈ groups, ∀ x, margAt p g x = margAt t g x
+
+/-- The source table is feasible for its own constraints. -/
+theorem Feasible.self (t : Tab (List σ) ℝ) (space : List (List σ)) (groups : List (List Nat))
+    (hk : keys t = space) (hnn : ∀ r ∈ t, 0 ≤ r.2) : Feasible t space groups t :=
+  ⟨hk, hnn, rfl, fun _ _ _ => rfl⟩
+
+/-- Two tables with duplicate-free keys and the same lookup function give every event the same
+weight (stored zeros and the stored order are irrelevant). -/
+theorem wtBy_eq_of_lookupD_eq {κ : Type} [DecidableEq κ] (T1 T2 : Tab κ ℝ)
+    (h1 : (keys T1).Nodup) (h2 : (keys T2).Nodup) (h : ∀ x, lookupD 0 T1 x = lookupD 0 T2 x)
+    (P : κ → Prop) [DecidablePred P] : wtBy P T1 = wtBy P T2 := by
+  have hl := nodup_dedup (keys T1 ++ keys T2)
+  have e1 := sum_map_wtBy_fibre hl (fun k : κ => k) P T1
+    (fun k hk => mem_dedup.mpr (List.mem_append_left _ hk))
+  have e2 := sum_map_wtBy_fibre hl (fun k : κ => k) P T2
+    (fun k hk => mem_dedup.mpr (List.mem_append_right _ hk))
+  rw [← e1, ← e2]
+  congr 1
+  apply List.map_congr_left
+  intro x _
+  rw [← lookupD_eq_wtBy h1, ← lookupD_eq_wtBy h2, h x]
+
+/-- Every index list contained in `g'` is read off `g'` at suitable positions. -/
+theorem exists_positions (g g' : List Nat) (h : ∀ i ∈ g, i ∈ g') :
+    ∃ J : List Nat, g = J.filterMap (fun j => g'[j]?) := by
+  induction g with
+  | nil => exact ⟨[], rfl⟩
+  | cons i g ih =>
+    obtain ⟨J, hJ⟩ := ih (fun k hk => h k (List.mem_cons_of_mem _ hk))
+    obtain ⟨j, hj⟩ := List.mem_iff_getElem?.mp (h i (by simp))
+    exact ⟨j :: J, by rw [List.filterMap_cons, hj, ← hJ]⟩
+
+/-- **Marginals of sub-groups.** If two tables have the same `g'`-marginal, every index of `g`
+occurs in `g'`, and the indices of `g'` are valid for all stored outcomes, then the tables have
+the same `g`-marginal. -/
+theorem margAt_of_submarginal (p q : Tab (List σ) ℝ) (g g' : List Nat)
+    (hsub : ∀ i ∈ g, i ∈ g')
+    (hvp : ∀ o ∈ keys p, ∀ i ∈ g', i < o.length) (hvq : ∀ o ∈ keys q, ∀ i ∈ g', i < o.length)
+    (hm : ∀ x, margAt p g' x = margAt q g' x) (x : List σ) :
+    margAt p g x = margAt q g x := by
+  obtain ⟨J, hJ⟩ := exists_positions g g' hsub
+  have key : ∀ T : Tab (List σ) ℝ, (∀ o ∈ keys T, ∀ i ∈ g', i < o.length) →
+      margAt T g x = wtBy (fun y => project J y = x) (pushforward (project g') T) := by
+    intro T hv
+    rw [margAt_eq_wtBy, wtBy_pushforward]
+    apply wtBy_congr
+    intro o ho
+    rw [project_project (hv o ho) J, ← hJ]
+  rw [key p hvp, key q hvq]
+  exact wtBy_eq_of_lookupD_eq _ _ (keys_pushforward_nodup _ _) (keys_pushforward_nodup _ _) hm _
+
+/-- Feasibility for finer constraints implies feasibility for coarser ones. -/
+theorem Feasible.coarsen {t : Tab (List σ) ℝ} {space : List (List σ)}
+    {groups₁ groups₂ : List (List Nat)} {p : Tab (List σ) ℝ} (ht : keys t = space)
+    (hcoarse : ∀ g ∈ groups₁, ∃ g' ∈ groups₂, ∀ i ∈ g, i ∈ g')
+    (hvalid : ∀ o ∈ space, ∀ g' ∈ groups₂, ∀ i ∈ g', i < o.length)
+    (h : Feasible t space groups₂ p) : Feasible t space groups₁ p := by
+  refine ⟨h.keys_eq, h.nonneg, h.mass_eq, ?_⟩
+  intro g hg x
+  obtain ⟨g', hg', hsub⟩ := hcoarse g hg
+  exact margAt_of_submarginal p t g g' hsub
+    (fun o ho => hvalid o (h.keys_eq ▸ ho) g' hg') (fun o ho => hvalid o (ht ▸ ho) g' hg')
+    (h.marg g' hg') x
+
+/-- If `g` covers all variables (`project g o = o` on the stored outcomes) the `g`-marginal is
+the table itself. -/
+theorem lookupD_eq_margAt_of_full (T : Tab (List σ) ℝ) (hnd : (keys T).Nodup) (g : List Nat)
+    (hfull : ∀ o ∈ keys T, project g o = o) (o : List σ) : lookupD 0 T o = margAt T g o := by
+  rw [lookupD_eq_wtBy hnd, margAt_eq_wtBy]
+  apply wtBy_congr
+  intro k hk
+  rw [hfull k hk]
+
+/-- Values of the uniform table. -/
+theorem lookupD_uniformOn (space : List (List σ)) (o : List σ) (ho : o ∈ space) :
+    lookupD 0 (uniformOn (fun n : Nat => (n : ℝ)) space) o = 1 / (space.length : ℝ) := by
+  unfold lookupD uniformOn
+  rw [lookup?_map_graph]; simp [ho]
+
+theorem keys_uniformOn (space : List (List σ)) :
+    keys (uniformOn (fun n : Nat => (n : ℝ)) space) = space := keys_map_graph _ _
+
+theorem uniformOn_nonneg (space : List (List σ)) :
+    ∀ r ∈ uniformOn (fun n : Nat => (n : ℝ)) space, 0 ≤ r.2 := by
+  intro r hr
+  obtain ⟨o, _, rfl⟩ := List.mem_map.mp hr
+  simp only
+  positivity
+
+theorem mass_uniformOn (space : List (List σ)) (hne : space ≠ []) :
+    mass (uniformOn (fun n : Nat => (n : ℝ)) space) = 1 := by
+  rw [mass_eq_sum]
+  unfold uniformOn vals
+  rw [List.map_map]
+  have : ((fun r : List σ × ℝ => r.2) ∘ fun o => (o, 1 / (space.length : ℝ)))
+      = fun _ => 1 / (space.length : ℝ) := rfl
+  rw [this, List.map_const', List.sum_replicate, nsmul_eq_mul]
+  have : (space.length : ℝ) ≠ 0 := by
+    have := List.length_pos_iff.mpr hne
+    positivity
+  field_simp
+
+/-- The uniform table has entropy `log₂ N`. -/
+theorem entropy_uniformOn (space : List (List σ)) :
+    entropyVals (Real.logb 2) (vals (uniformOn (fun n : Nat => (n : ℝ)) space))
+      = Real.logb 2 (space.length : ℝ) := by
+  rw [entropyVals_eq_sum]
+  simp only [uniformOn, vals, List.map_map, Function.comp_def, List.map_const',
+    List.map_replicate, List.sum_replicate, nsmul_eq_mul]
+  by_cases h0 : (space.length : ℝ) = 0
+  · simp [h0]
+  · rw [one_div, Real.logb_inv]
+    field_simp
+
+end Feasible
+
+/-! ### An IPF step does not increase `D(t‖q)` -/
+
+section StepKL
+open Dit.Lemmas.Diverge Dit.Lemmas.InfoReal
+variable {σ : Type} [DecidableEq σ]
+
+/-- Value of the table after one IPF step. -/
+theorem lookupD_ipfStep (t q : Tab (List σ) ℝ) {space : List (List σ)} (hq : keys q = space)
+    (hnd : space.Nodup) (g : List Nat) (o : List σ) (ho : o ∈ space) :
+    lookupD 0 (ipfStep t q g) o
+      = lookupD 0 q o * (margAt t g (project g o) / margAt q g (project g o)) := by
+  have hm := mem_of_mem_space hq hnd ho
+  have hm' : (o, lookupD 0 q o * (margAt t g (project g o) / margAt q g (project g o)))
+      ∈ ipfStep t q g := by
+    rw [ipfStep_eq]
+    exact List.mem_map.mpr ⟨_, hm, rfl⟩
+  have hnd' : (keys (ipfStep t q g)).Nodup := by rw [keys_ipfStep, hq]; exact hnd
+  exact lookupD_of_mem hnd' hm'
+
+/-- An IPF step keeps the support of the target inside that of the iterate. -/
+theorem supp_ipfStep (t q : Tab (List σ) ℝ) {space : List (List σ)} (hq : keys q = space)
+    (hnd : space.Nodup) (htn : ∀ r ∈ t, 0 ≤ r.2) (hqn : ∀ r ∈ q, 0 ≤ r.2) (g : List Nat)
+    (hsupp : ∀ o ∈ space, lookupD 0 q o = 0 → lookupD 0 t o = 0) :
+    ∀ o ∈ space, lookupD 0 (ipfStep t q g) o = 0 → lookupD 0 t o = 0 := by
+  intro o ho h0
+  rw [lookupD_ipfStep t q hq hnd g o ho] at h0
+  rcases mul_eq_zero.mp h0 with h | h
+  · exact hsupp o ho h
+  · rcases div_eq_zero_iff.mp h with h | h
+    · exact lookupD_eq_zero_of_margAt_eq_zero t htn g o h
+    · exact hsupp o ho (lookupD_eq_zero_of_margAt_eq_zero q hqn g o h)
+
+/-- The marginal of `q` vanishes only where that of `t` does, when `supp t ⊆ supp q`. -/
+theorem margAt_absCont (t q : Tab (List σ) ℝ) {space : List (List σ)} (ht : keys t = space)
+    (hnd : space.Nodup) (hqn : ∀ r ∈ q, 0 ≤ r.2) (g : List Nat)
+    (hsupp : ∀ o ∈ space, lookupD 0 q o = 0 → lookupD 0 t o = 0) (x : List σ)
+    (h : margAt q g x = 0) : margAt t g x = 0 := by
+  rw [margAt_eq_wtBy]
+  unfold wtBy
+  apply List.sum_eq_zero
+  intro z hz
+  obtain ⟨r, hr, rfl⟩ := List.mem_map.mp hz
+  by_cases hp : project g r.1 = x
+  · rw [if_pos hp]
+    have hmem : r.1 ∈ space := ht ▸ mem_keys_of_mem hr
+    rw [← lookupD_of_mem (ht ▸ hnd) hr]
+    exact hsupp r.1 hmem (lookupD_eq_zero_of_margAt_eq_zero q hqn g r.1 (by rw [hp]; exact h))
+  · rw [if_neg hp]
+
+/-- **Decrease of the divergence in one IPF step**: `D(t‖q) − D(t‖q') = D(t_g‖q_g)`, the
+divergence between the `g`-marginals (listed over the distinct projections of the space). -/
+theorem klSum_sub_klSum_ipfStep (t q : Tab (List σ) ℝ) {space : List (List σ)}
+    (ht : keys t = space) (hq : keys q = space) (hnd : space.Nodup)
+    (htn : ∀ r ∈ t, 0 ≤ r.2) (hqn : ∀ r ∈ q, 0 ≤ r.2) (g : List Nat)
+    (hsupp : ∀ o ∈ space, lookupD 0 q o = 0 → lookupD 0 t o = 0) :
+    klSum (alignPair t q) - klSum (alignPair t (ipfStep t q g))
+      = klSum ((dedup (space.map (project g))).map (fun x => (margAt t g x, margAt q g x))) := by
+  have hl := nodup_dedup (space.map (project g))
+  have e := sum_rows_margAt t g (fun x => Real.logb 2 (margAt t g x / margAt q g x)) hl (by
+    intro o ho; rw [mem_dedup]; exact List.mem_map.mpr ⟨o, ht ▸ ho, rfl⟩)
+  unfold klSum alignPair
+  rw [List.map_map, List.map_map, List.map_map, ← sum_map_sub]
+  refine Eq.trans ?_ e
+  congr 1
+  apply List.map_congr_left
+  intro r hr
+  simp only [Function.comp_apply]
+  by_cases h0 : r.2 = 0
+  · simp [h0]
+  · have hmem : r.1 ∈ space := ht ▸ mem_keys_of_mem hr
+    have hT : lookupD 0 t r.1 = r.2 := lookupD_of_mem (ht ▸ hnd) hr
+    have hTpos : 0 < r.2 := lt_of_le_of_ne (htn r hr) (Ne.symm h0)
+    have hQ0 : lookupD 0 q r.1 ≠ 0 := fun e' => h0 (by rw [← hT]; exact hsupp r.1 hmem e')
+    have hQpos : 0 < lookupD 0 q r.1 := lt_of_le_of_ne (lookupD_nonneg hqn _) (Ne.symm hQ0)
+    have hmq : 0 < margAt q g (project g r.1) :=
+      lt_of_lt_of_le hQpos (le_margAt q hqn g _ (mem_of_mem_space hq hnd hmem))
+    have hmt : 0 < margAt t g (project g r.1) := lt_of_lt_of_le hTpos (le_margAt t htn g r hr)
+    rw [lookupD_ipfStep t q hq hnd g r.1 hmem]
+    have e2 : r.2 / (lookupD 0 q r.1 * (margAt t g (project g r.1) / margAt q g (project g r.1)))
+        = (r.2 / lookupD 0 q r.1) / (margAt t g (project g r.1) / margAt q g (project g r.1)) := by
+      field_simp
+    rw [e2, Real.logb_div (div_ne_zero h0 hQ0) (div_ne_zero hmt.ne' hmq.ne')]
+    ring
+
+/-- **An IPF step does not increase `D(t‖q)`**, for non-negative tables on the same space with
+`supp t ⊆ supp q` and `mass q ≤ mass t`. -/
+theorem klSum_ipfStep_le (t q : Tab (List σ) ℝ) {space : List (List σ)}
+    (ht : keys t = space) (hq : keys q = space) (hnd : space.Nodup)
+    (htn : ∀ r ∈ t, 0 ≤ r.2) (hqn : ∀ r ∈ q, 0 ≤ r.2) (g : List Nat)
+    (hsupp : ∀ o ∈ space, lookupD 0 q o = 0 → lookupD 0 t o = 0) (hmass : mass q ≤ mass t) :
+    klSum (alignPair t (ipfStep t q g)) ≤ klSum (alignPair t q) := by
+  have hl := nodup_dedup (space.map (project g))
+  have hid := klSum_sub_klSum_ipfStep t q ht hq hnd htn hqn g hsupp
+  have hnn := klSum_nonneg ((dedup (space.map (project g))).map
+      (fun x => (margAt t g x, margAt q g x)))
+    (by
+      intro r hr
+      obtain ⟨x, _, rfl⟩ := List.mem_map.mp hr
+      exact ⟨margAt_nonneg t htn g x, margAt_nonneg q hqn g x⟩)
+    (by
+      rw [absCont_iff]
+      intro r hr h2
+      obtain ⟨x, _, rfl⟩ := List.mem_map.mp hr
+      exact margAt_absCont t q ht hnd hqn g hsupp x h2)
+    (by
+      rw [List.map_map, List.map_map]
+      have e1 := sum_margAt t g hl (by
+        intro o ho; rw [mem_dedup]; exact List.mem_map.mpr ⟨o, ht ▸ ho, rfl⟩)
+      have e2 := sum_margAt q g hl (by
+        intro o ho; rw [mem_dedup]; exact List.mem_map.mpr ⟨o, hq ▸ ho, rfl⟩)
+      have f1 : (Prod.fst ∘ fun x => (margAt t g x, margAt q g x)) = fun x => margAt t g x := rfl
+      have f2 : (Prod.snd ∘ fun x => (margAt t g x, margAt q g x)) = fun x => margAt q g x := rfl
+      rw [f1, f2, e1, e2]; exact hmass)
+  linarith
+
+end StepKL
+
+/-! ### Fixed points and invariants of the IPF iteration -/
+
+section Fixed
+open Dit.Lemmas.Diverge Dit.Lemmas.InfoReal
+variable {σ : Type} [DecidableEq σ]
+
+/-- A non-negative table whose `g`-marginal already equals the target's is left unchanged by
+the IPF step for `g`. -/
+theorem ipfStep_eq_self (t q : Tab (List σ) ℝ) (hqn : ∀ r ∈ q, 0 ≤ r.2) (g : List Nat)
+    (hm : ∀ x, margAt q g x = margAt t g x) : ipfStep t q g = q := by
+  rw [ipfStep_eq]
+  conv_rhs => rw [← List.map_id q]
+  apply List.map_congr_left
+  intro r hr
+  simp only [id]
+  by_cases h0 : margAt q g (project g r.1) = 0
+  · have h1 := le_margAt q hqn g r hr
+    have h2 := hqn r hr
+    have : r.2 = 0 := by linarith
+    rw [h0, div_zero, mul_zero]
+    exact Prod.ext rfl this.symm
+  · rw [← hm, div_self h0, mul_one]
+
+theorem foldl_ipfStep_eq_self (t q : Tab (List σ) ℝ) (hqn : ∀ r ∈ q, 0 ≤ r.2)
+    (gs : List (List Nat)) (hm : ∀ g ∈ gs, ∀ x, margAt q g x = margAt t g x) :
+    gs.foldl (fun q' g => ipfStep t q' g) q = q := by
+  induction gs with
+  | nil => rfl
+  | cons g gs ih =>
+    rw [List.foldl_cons, ipfStep_eq_self t q hqn g (hm g (by simp))]
+    exact ih (fun g' hg' => hm g' (List.mem_cons_of_mem _ hg'))
+
+/-- A feasible table is a fixed point of the IPF iteration. -/
+theorem ipf_eq_self (t q : Tab (List σ) ℝ) (hqn : ∀ r ∈ q, 0 ≤ r.2) (groups : List (List Nat))
+    (hm : ∀ g ∈ groups, ∀ x, margAt q g x = margAt t g x) (n : Nat) : ipf t groups q n = q := by
+  induction n with
+  | zero => rfl
+  | succ n ih =>
+    show ipfSweep t (ipf t groups q n) groups = q
+    rw [ih]; exact foldl_ipfStep_eq_self t q hqn groups hm
+
+theorem foldl_ipfStep_supp (t : Tab (List σ) ℝ) {space : List (List σ)} (hnd : space.Nodup)
+    (htn : ∀ r ∈ t, 0 ≤ r.2) (gs : List (List Nat)) (q : Tab (List σ) ℝ) (hq : keys q = space)
+    (hqn : ∀ r ∈ q, 0 ≤ r.2)
+    (hsupp : ∀ o ∈ space, lookupD 0 q o = 0 → lookupD 0 t o = 0) :
+    ∀ o ∈ space, lookupD 0 (gs.foldl (fun q' g => ipfStep t q' g) q) o = 0
+      → lookupD 0 t o = 0 := by
+  induction gs generalizing q with
+  | nil => exact hsupp
+  | cons g gs ih =>
+    rw [List.foldl_cons]
+    exact ih _ (by rw [keys_ipfStep, hq]) (ipfStep_nonneg t q g htn hqn)
+      (supp_ipfStep t q hq hnd htn hqn g hsupp)
+
+/-- Every IPF iterate keeps the support of the target inside its own. -/
+theorem ipf_supp (t q0 : Tab (List σ) ℝ) {space : List (List σ)} (hq : keys q0 = space)
+    (hnd : space.Nodup) (htn : ∀ r ∈ t, 0 ≤ r.2) (hqn : ∀ r ∈ q0, 0 ≤ r.2)
+    (groups : List (List Nat))
+    (hsupp : ∀ o ∈ space, lookupD 0 q0 o = 0 → lookupD 0 t o = 0) (n : Nat) :
+    ∀ o ∈ space, lookupD 0 (ipf t groups q0 n) o = 0 → lookupD 0 t o = 0 := by
+  induction n with
+  | zero => exact hsupp
+  | succ n ih =>
+    exact foldl_ipfStep_supp t hnd htn groups _ (by rw [keys_ipf, hq])
+      (ipf_nonneg t q0 groups htn hqn n) ih
+
+end Fixed
+
+/-! ### The optimality certificate -/
+
+section Certificate
+open Dit.Lemmas.Diverge Dit.Lemmas.InfoReal
+variable {σ : Type} [DecidableEq σ]
+
+/-- The identity on all variables: projecting an outcome on `0, …, n-1` returns it. -/
+theorem project_range_length (o : List σ) : project (List.range o.length) o = o := by
+  induction o with
+  | nil => rfl
+  | cons a o ih =>
+    rw [List.length_cons, List.range_succ_eq_map]
+    unfold project at ih ⊢
+    rw [List.filterMap_cons, List.filterMap_map]
+    simp only [List.getElem?_cons_zero]
+    congr 1
+
+/-- **Certificate of optimality.** A table `q` that is log-linear on its support over `groups`
+has at least the entropy of every non-negative table `p` on the same space with the same mass,
+the same marginals on `groups` and `supp p ⊆ supp q`; equality holds only for `p = q`. -/
+theorem entropy_le_of_loglinear (p q : Tab (List σ) ℝ) {space : List (List σ)}
+    (hp : keys p = space) (hq : keys q = space) (hnd : space.Nodup)
+    (hpn : ∀ r ∈ p, 0 ≤ r.2) (hqn : ∀ r ∈ q, 0 ≤ r.2)
+    (groups : List (List Nat)) (c : ℝ) (ψ : List Nat → List σ → ℝ)
+    (hmass : mass p = mass q)
+    (hm : ∀ g ∈ groups, ∀ x, margAt p g x = margAt q g x)
+    (hlog : ∀ o ∈ space, lookupD 0 q o ≠ 0 →
+      Real.logb 2 (lookupD 0 q o) = c + (groups.map (fun g => ψ g (project g o))).sum)
+    (hsupp : ∀ o ∈ space, lookupD 0 q o = 0 → lookupD 0 p o = 0) :
+    entropyVals (Real.logb 2) (vals p) ≤ entropyVals (Real.logb 2) (vals q)
+      ∧ (entropyVals (Real.logb 2) (vals p) = entropyVals (Real.logb 2) (vals q) ↔ p = q) := by
+  have hid := klSum_eq_entropy_sub p q hp hq hnd groups c ψ hmass hm hlog hsupp
+  have hac := absCont_alignPair p q hp hnd hsupp
+  have hnn : ∀ r ∈ alignPair p q, 0 ≤ r.1 ∧ 0 ≤ r.2 := by
+    rw [alignPair_eq p q hp hnd]
+    intro r hr
+    obtain ⟨o, _, rfl⟩ := List.mem_map.mp hr
+    exact ⟨lookupD_nonneg hpn o, lookupD_nonneg hqn o⟩
+  have hs : ((alignPair p q).map Prod.fst).sum = ((alignPair p q).map Prod.snd).sum := by
+    rw [alignPair_fst, alignPair_snd p q hp hq hnd, ← mass_eq_sum, ← mass_eq_sum, hmass]
+  have h0 := klSum_nonneg (alignPair p q) hnn hac hs.ge
+  have hz := klSum_eq_zero_iff (alignPair p q) hnn hac hs
+  refine ⟨by linarith, ?_⟩
+  constructor
+  · intro he
+    have : klSum (alignPair p q) = 0 := by rw [hid, he, sub_self]
+    have hall := hz.mp this
+    apply eq_of_lookupD_eq hp hq hnd
+    intro o ho
+    rw [alignPair_eq p q hp hnd] at hall
+    exact hall _ (List.mem_map.mpr ⟨o, ho, rfl⟩)
+  · intro he; rw [he]
+
+end Certificate
+
+/-! ### A concrete instance (used by the non-vacuity examples of Props/C14.lean) -/
+
+section Example
+
+/-- Two binary alphabets. -/
+def exAlph : List (List Nat) := [[0, 1], [0, 1]]
+
+/-- Two perfectly correlated fair bits, stored densely on the Cartesian space. -/
+noncomputable def exCorr : Tab (List Nat) ℝ :=
+  [([0, 0], 1 / 2), ([0, 1], 0), ([1, 0], 0), ([1, 1], 1 / 2)]
+
+theorem exAlph_nodup : ∀ a ∈ exAlph, a.Nodup := by decide
+
+theorem exCorr_keys : keys exCorr = cartesian exAlph := rfl
+
+theorem exCorr_nonneg : ∀ r ∈ exCorr, 0 ≤ r.2 := by
+  intro r hr
+  simp only [exCorr, List.mem_cons, List.not_mem_nil, or_false] at hr
+  rcases hr with rfl | rfl | rfl | rfl <;> norm_num
+
+theorem exCorr_mass : mass exCorr = 1 := by
+  rw [mass_eq_sum]
+  simp only [exCorr, vals, List.map_cons, List.map_nil, List.sum_cons, List.sum_nil]
+  norm_num
+
+theorem exCorr_lookup : lookupD 0 exCorr [0, 1] = 0 := by
+  simp [exCorr, lookupD, lookup?]
+
+theorem exCorr_marg0 : margAt exCorr [0] [0] = 1 / 2 := by
+  rw [margAt_eq_wtBy]
+  simp [wtBy, exCorr, project]
+
+theorem exCorr_marg1 : margAt exCorr [1] [1] = 1 / 2 := by
+  rw [margAt_eq_wtBy]
+  simp [wtBy, exCorr, project]
+
+/-- The product of the marginals differs from the correlated table. -/
+theorem exCorr_prod_lookup :
+    lookupD 0 (prodMarg exCorr (singletons 2) (cartesian exAlph)) [0, 1] = 1 / 4 := by
+  rw [lookupD_prodMarg _ _ _ _ (by decide)]
+  simp only [singletons, List.range_succ_eq_map, List.range_zero, List.map_cons, List.map_nil,
+    List.prod_cons, List.prod_nil]
+  have e0 : project [0] [0, 1] = [0] := rfl
+  have e1 : project [Nat.succ 0] [0, 1] = [1] := rfl
+  rw [e0, e1, exCorr_marg0, exCorr_marg1]
+  norm_num
+
+end Example
+
+section ProdForm
+variable {σ : Type} [DecidableEq σ]
+
+theorem singletons_nodup (n : Nat) : (singletons n).Nodup :=
+  List.nodup_range.map (fun a b e => by injection e)
+
+/-- The product of the marginals on duplicate-free groups has product form (constant 1, factors
+the marginals). -/
+theorem prodMarg_productForm (t : Tab (List σ) ℝ) (groups : List (List Nat))
+    (hnd : groups.Nodup) (space : List (List σ)) :
+    ProductForm groups (prodMarg t groups space) := by
+  refine ⟨1, fun g x => margAt t g x, ?_⟩
+  intro r hr
+  obtain ⟨o, _, rfl⟩ := List.mem_map.mp hr
+  rw [dedup_eq_self.mpr hnd, one_mul]
+
+/-- Feasibility only depends on the set of groups. -/
+theorem Feasible.dedup {t : Tab (List σ) ℝ} {space : List (List σ)} {groups : List (List Nat)}
+    {p : Tab (List σ) ℝ} (h : Feasible t space groups p) :
+    Feasible t space (Dit.dedup groups) p :=
+  ⟨h.keys_eq, h.nonneg, h.mass_eq, fun g hg => h.marg g (mem_dedup.mp hg)⟩
+
+end ProdForm
 
 end Dit.Lemmas.Maxent
